@@ -23,7 +23,9 @@ RULE = ("seeded cell lists: stream (i) dyadic coordinates (atoms on cell borders
         "clusters), power-of-two cell size, dyadic radii incl. 0 and > extent, queries inside / on borders / far "
         "outside the bounding box, selections, orthorhombic periodic boxes; ops new/atoms/cells/adj with idx and "
         "mask output, scalar and per-query radii, compared as sets with the Lean ℚ model; stream (ii) general "
-        "float32 inputs incl. triclinic boxes judged by the float64 brute-force oracle with a 1e-4 band. "
+        "float32 inputs incl. triclinic boxes judged by the float64 brute-force oracle with a 1e-4 band; exact periodic boxes "
+        "also as signed permutation matrices, float-geom stream (rotated orthorhombic, one-angle triclinic) compared with "
+        "biotite's own geometry distances; every array argument must be bit-identical after each call. "
         "non-trivial = at least one query returns a non-empty proper subset of the atoms or an error branch is hit; "
         "distinct = different op lines / spec")
 TRUSTED = ["numpy float32 arithmetic is exact on the dyadic inputs of the exact stream (power-of-two scaling, <2^24 magnitudes)",
@@ -285,6 +287,8 @@ def _query(np, cl, q, n, periodic, exact, S=0, wide=False, issues=None):
         for name, a, b in snaps:
             if a.tobytes() != b:
                 issues.append(("caller-array-modified", f"{q['op']} overwrote the caller's {name} ({a.dtype}): now {a.tolist()}"[:300]))
+        if issues:      # do not query again with corrupted arguments (a squared radius can ask for gigabytes)
+            return _rows_from_mask(np, res, single, n) if as_mask else _rows_from_idx(np, res, single, n, periodic)
         res2 = fn(pts, rad, as_mask=as_mask)
         if not np.array_equal(np.asarray(res), np.asarray(res2)):
             issues.append(("repeated-query-differs", f"{q['op']} with the same argument arrays ({pts.dtype} coordinates, "
@@ -602,7 +606,23 @@ def _oracle_body(case):
     return v
 
 
+def _limit_memory():
+    """Safety net: a changed tree may ask numpy for a giant result buffer; fail with MemoryError instead of swapping."""
+    if _LAST.get("rlimit"):
+        return
+    _LAST["rlimit"] = True
+    try:
+        import resource
+        soft, hard = resource.getrlimit(resource.RLIMIT_AS)
+        cap = 12 * 2 ** 30
+        if soft == resource.RLIM_INFINITY or soft > cap:
+            resource.setrlimit(resource.RLIMIT_AS, (cap, hard))
+    except Exception:
+        pass
+
+
 def oracle(case):
+    _limit_memory()
     if case.get("fork"):
         from common.sandbox import run_forked
         r = run_forked(_oracle_body, case, timeout=120)
@@ -688,12 +708,26 @@ def _exact_case(rng, periodic=False):
         if dims[0] * dims[1] * dims[2] <= 150000:
             break
         cs *= 2
-    ops = [f"new {S} {cs} {'-' if box is None else _ints(box)} {'-' if sel is None else ''.join('1' if s else '0' for s in sel)} "
+    box_tok = "-" if box is None else _ints(box)
+    cells_ok = True
+    if box is not None and rng.random() < 0.5:
+        # the same orthorhombic lattice given by box vectors that are not along x,y,z in this order:
+        # signed permutation matrix times lengths (row i = sign_i * L * e_perm[i]); exact in float32
+        perm = rng.choice([[0, 1, 2], [1, 0, 2], [2, 1, 0], [0, 2, 1], [1, 2, 0], [2, 0, 1]])
+        signs = [rng.choice([1, 1, -1]) for _ in range(3)]
+        mat = [0] * 9
+        for i in range(3):
+            mat[3 * i + perm[i]] = signs[i] * box[perm[i]]
+        box_tok = _ints(mat)
+        cells_ok = all(sg > 0 for sg in signs)   # with a negative vector the wrapped region (hence the cell grid) differs from the model's
+    ops = [f"new {S} {cs} {box_tok} {'-' if sel is None else ''.join('1' if s else '0' for s in sel)} "
            f"{_ints(x for c in coords for x in c)}"]
     ext = max(mx[a] - mn[a] for a in range(3))
     nq_total = 0
     for _ in range(rng.randint(1, 4)):
         kind = rng.choice(["atoms", "atoms", "atoms", "cells", "adj"])
+        if kind == "cells" and not cells_ok:
+            kind = "atoms"
         if kind == "adj":
             thr = rng.choice([0, 1, cs, 2 * cs, cs + 1, max(1, ext // 2), ext + 1, rng.randint(0, 60)])
             thr = _cap_radius(thr, cs, mcl, n)
@@ -932,6 +966,64 @@ def _float_case(rng):
                      "sel": sel, "queries": queries}}
 
 
+def _rotation(np, nrng):
+    """Random proper rotation (QR of a Gaussian matrix)."""
+    qm, rm = np.linalg.qr(nrng.normal(0, 1, (3, 3)))
+    qm = qm * np.sign(np.diag(rm))
+    if np.linalg.det(qm) < 0:
+        qm[:, 0] = -qm[:, 0]
+    return qm
+
+
+def _float_geom_case(rng):
+    """Periodic boxes for which biotite has a second, independent code path for minimum-image distances
+    (geometry.distance / index_distance with the box): axis-aligned and *rotated* orthorhombic boxes, and triclinic
+    boxes in which exactly one of alpha/beta/gamma differs from 90 deg (reduced cells: |cos| <= 0.31, edge ratio <= 1.56).
+    Atoms and queries lie inside and outside the box; radii reach 0.75 box lengths."""
+    import numpy as np
+    from biotite.structure.box import vectors_from_unitcell
+    nrng = np.random.default_rng(rng.getrandbits(32))
+    L = rng.choice([0.8, 1.0, 2.0, 7.0, 25.0])
+    lens = [L * rng.uniform(0.8, 1.25) for _ in range(3)]
+    kind = rng.choice(["ortho", "rotated", "rotated", "alpha", "alpha", "beta", "gamma"])
+    ang = [90.0, 90.0, 90.0]
+    if kind in ("alpha", "beta", "gamma"):
+        ang[{"alpha": 0, "beta": 1, "gamma": 2}[kind]] = rng.choice([rng.uniform(72, 84), rng.uniform(96, 108)])
+    box = np.asarray(vectors_from_unitcell(*lens, *[math.radians(a) for a in ang]), dtype=np.float64)
+    if kind == "rotated":
+        box = np.diag(lens) @ (_rotation(np, nrng) if rng.random() < 0.7 else
+                               np.array(rng.choice([[[0, 1, 0], [0, 0, 1], [1, 0, 0]], [[0, -1, 0], [1, 0, 0], [0, 0, 1]],
+                                                    [[0, 0, 1], [0, 1, 0], [-1, 0, 0]]]), dtype=np.float64))
+    elif rng.random() < 0.3:
+        box = box @ _rotation(np, nrng)          # the whole (triclinic) cell rotated together with the structure
+    box = box.astype(np.float32)
+    n = rng.choice([2, 4, 8, 14])
+    coords = (nrng.uniform(-0.6, 1.6, (n, 3)) @ box.astype(np.float64)).astype(np.float32)
+    cs = _f32(min(lens) * rng.choice([0.3, 0.5, 0.8]))
+    sel = None
+    if rng.random() < 0.25:
+        sel = [rng.random() < 0.7 for _ in range(n)]
+        if not any(sel):
+            sel[0] = True
+    queries = []
+    for _ in range(rng.randint(1, 3)):
+        r = _f32(min(lens) * rng.choice([0.3, 0.45, 0.6, 0.75]))
+        if rng.random() < 0.5:
+            queries.append({"op": "adj", "thr": r})
+        else:
+            m = rng.choice([1, 3, 6])
+            pts = (nrng.uniform(-1.5, 2.5, (m, 3)) @ box.astype(np.float64)).astype(np.float32)
+            if rng.random() < 0.5:
+                queries.append({"op": "atoms", "mode": rng.choice(["idx", "mask"]), "shape": "m", "q": [[float(x) for x in p] for p in pts],
+                                "rad_kind": "m", "rad": [_f32(min(lens) * rng.choice([0.3, 0.45, 0.6, 0.75])) for _ in range(m)]})
+            else:
+                queries.append({"op": "atoms", "mode": rng.choice(["idx", "mask"]), "shape": "m", "q": [[float(x) for x in p] for p in pts],
+                                "rad_kind": "s", "rad": r})
+    return {"kind": "float-geom-" + kind,
+            "spec": {"coords": [[float(x) for x in c] for c in coords], "cs": cs, "box": [[float(x) for x in row] for row in box],
+                     "sel": sel, "queries": queries, "geom": True}}
+
+
 def cases(rng, tier):
     n_exact, n_float = (800, 800) if tier == "quick" else (12000, 12000)
     for i in range(n_exact):
@@ -946,6 +1038,8 @@ def cases(rng, tier):
             yield _exact_case(rng)
     for i in range(n_float):
         yield _float_case(rng)
+    for i in range(240 if tier == "quick" else 3000):
+        yield _float_geom_case(rng)
 
 
 def corpus():
@@ -1016,6 +1110,8 @@ def search(rng, problems, tier):
         yield _exact_case(rng, periodic=rng.random() < 0.3)
     for _ in range(300 if tier == "quick" else 2000):
         yield _float_case(rng)
+    for _ in range(200 if tier == "quick" else 1500):
+        yield _float_geom_case(rng)
 
 
 def shrink(case, key):
